@@ -850,6 +850,154 @@ theorem dnscrypt_e2e_table (t : Transport) (ht : t.isDNSCrypt = true) (um : Opti
 example : (serveDNSCryptE2E .dnscryptTCP (some sampleResponse) .silent).status = stClosed ∧
     (serveDNSCryptE2E .dnscryptUDP (some sampleQuery) .silent).msgs = [setRcode sampleQuery rcServFail] := by decide
 
+/-! ## Round 4: fault and life-cycle paths -/
+
+/-- **handler_panic_contained.** (Repaired code.)  A panic of the handler — before or after
+it has written — costs the process nothing on any transport, the client of that request sees
+at most one message, and that message is the one the handler itself had written; on the
+transports that deliver at the end (DoH, DoQ, DNSCrypt) it sees none.  A request the handler
+is not consulted for is served as if the handler were fine. -/
+theorem handler_panic_contained (t : Transport) (m : Msg) (w : Option Resp) (wok : Bool) :
+    (serveMsgF true t m (.panics w) wok).up = true ∧
+    (serveMsgF true t m (.panics w) wok).sees.msgs.length ≤ 1 ∧
+    (∀ r ∈ (serveMsgF true t m (.panics w) wok).sees.msgs,
+        (handlerRuns t m = true → w = some r ∧ t.nonWriter = false) ∧
+        (handlerRuns t m = false → ∀ o, r ∈ (serveMsg t m o wok).msgs)) ∧
+    (handlerRuns t m = false → ∀ o, (serveMsgF true t m (.panics w) wok).sees = serveMsg t m o wok) := by
+  unfold serveMsgF
+  by_cases hr : handlerRuns t m = true
+  · simp only [hr, ↓reduceIte, Bool.true_or, true_and]
+    refine ⟨?_, ?_, ?_⟩
+    · cases t <;> cases wok <;> cases w <;> simp [afterPanic, panicked]
+    · intro r hmem
+      refine ⟨fun _ => ?_, fun h => by simp at h⟩
+      cases t <;> cases wok <;> cases w <;> simp [afterPanic, panicked, Transport.nonWriter] at hmem ⊢ <;> simp [hmem]
+    · intro h; simp at h
+  · have hr' : handlerRuns t m = false := by simpa using hr
+    have hsame : ∀ o, serveMsg t m .silent wok = serveMsg t m o wok := by
+      intro o
+      unfold handlerRuns at hr'
+      by_cases hacc : acceptMsg m = .accept
+      · have hq : t = .doq ∧ validQUICMsg m = false := by
+          simp [hacc] at hr'; exact hr'
+        unfold serveMsg; simp [hq.1, hq.2]
+      · exact (reject_never_foreign t m .silent o wok hacc).1
+    simp only [hr', Bool.false_eq_true, ↓reduceIte, true_and]
+    refine ⟨?_, ?_, ?_⟩
+    · unfold serveMsg
+      split
+      · simp
+      · by_cases hacc : acceptMsg m = .accept
+        · have hc : serveCore m .silent = [] := by unfold serveCore; rw [hacc]
+          rw [hc]; cases t <;> cases wok <;> simp [deliver, lastOr]
+        · have hc : (serveCore m .silent).length ≤ 1 := by
+            unfold serveCore; split <;> simp
+          match hs : serveCore m .silent, hc with
+          | [], _ => cases t <;> cases wok <;> simp [deliver, lastOr]
+          | [x], _ => cases t <;> cases wok <;> simp [deliver, lastOr]
+    · intro r hmem
+      exact ⟨fun h => by simp at h, fun _ o => hsame o ▸ hmem⟩
+    · intro _ o; exact hsame o
+
+example : handlerRuns .dnscryptUDP sampleQuery = true ∧ handlerRuns .udp sampleStatus = false := by decide
+example : (serveMsgF true .tcp sampleQuery (.panics (some (handlerResp sampleQuery 0 1))) true).sees =
+    { status := stOpen, msgs := [handlerResp sampleQuery 0 1] } := by decide
+
+/-- **panic_isolated.** (Repaired code.)  Whatever sequence of requests a process serves —
+any clients, any transports, handlers that panic at will — every request is served exactly as
+it would be on its own: no panic reaches beyond its own request. -/
+theorem panic_isolated (rs : List Req) :
+    serveProc true true rs = rs.map fun r => some (serveMsgF true r.t r.m r.h r.wok).sees := by
+  induction rs with
+  | nil => rfl
+  | cons r rs ih =>
+    have hup : (serveMsgF true r.t r.m r.h r.wok).up = true := by
+      unfold serveMsgF; split
+      · rfl
+      · split <;> simp
+    simp [serveProc, hup, ih]
+
+/-- **dnscrypt_panic_counterexample.** (Finding `dnscrypt-handler-panic-kills-process`.)
+Before the fix one DNSCrypt query whose handler panics ended the process: the plain-UDP query
+of another client that follows it is never answered. -/
+theorem dnscrypt_panic_counterexample :
+    (serveMsgF false .dnscryptUDP sampleQuery (.panics none) true).up = false ∧
+    serveProc false true
+      [⟨.dnscryptUDP, sampleQuery, .panics none, true⟩,
+       ⟨.udp, sampleQuery, .returns (.wrote (handlerResp sampleQuery 0 1)), true⟩] =
+      [some { status := stNone, msgs := [] }, none] ∧
+    ¬ (∀ rs, serveProc false true rs = rs.map fun r => some (serveMsgF false r.t r.m r.h r.wok).sees) := by
+  refine ⟨by decide, by decide, ?_⟩
+  intro h
+  have := h [⟨.dnscryptUDP, sampleQuery, .panics none, true⟩,
+             ⟨.udp, sampleQuery, .returns (.wrote (handlerResp sampleQuery 0 1)), true⟩]
+  revert this; decide
+
+theorem lStep_good (pooled : Bool) (s : LState) (op : LOp) (h : LGood s) :
+    LGood (lStep true pooled s op).1 ∧ (lStep true pooled s op).2 ≠ .unanswered ∧
+    (lStep true pooled s op).2 ≠ .hung ∧
+    (op = .arrive → s.started = true → (lStep true pooled s op) = (s, .served)) := by
+  obtain ⟨hl, hs, hn⟩ := h
+  cases op with
+  | start =>
+    unfold lStep
+    by_cases hst : s.started = true
+    · simp [hst]; exact ⟨hl, hs, hn⟩
+    · simp [hst, LGood, hl]
+  | shutdown =>
+    unfold lStep
+    by_cases hst : s.started = true
+    · simp [hst, LGood, hl]
+    · have : s.started = false := by simpa using hst
+      simp [this]; exact ⟨hl, hs, hn⟩
+  | arrive =>
+    unfold lStep
+    by_cases hst : s.started = true
+    · obtain ⟨h1, h2⟩ := hs hst
+      simp [h1, h2]; exact ⟨hl, fun _ => ⟨h1, h2⟩, hn⟩
+    · have hf : s.started = false := by simpa using hst
+      simp [hn hf, hf]; exact ⟨hl, fun h => by simp [hf] at h, hn⟩
+
+/-- **restart_serves.** (Repaired code.)  Over every sequence of `Start`, `Shutdown` and
+arrivals (a datagram, a connection, a stream) on a server — with a worker pool or without —
+no arrival is ever left unanswered by a running listener, no `Shutdown` hangs, and in the
+state reached a started server serves the next arrival and keeps listening. -/
+theorem restart_serves (pooled : Bool) (ops : List LOp) :
+    (∀ ob ∈ (lRun true pooled lInit ops).2, ob ≠ .unanswered ∧ ob ≠ .hung) ∧
+    ((lRun true pooled lInit ops).1.started = true →
+      lStep true pooled (lRun true pooled lInit ops).1 .arrive = ((lRun true pooled lInit ops).1, .served)) := by
+  have key : ∀ (ops : List LOp) (s : LState), LGood s →
+      LGood (lRun true pooled s ops).1 ∧ ∀ ob ∈ (lRun true pooled s ops).2, ob ≠ .unanswered ∧ ob ≠ .hung := by
+    intro ops
+    induction ops with
+    | nil => intro s h; exact ⟨h, by simp [lRun]⟩
+    | cons op ops ih =>
+      intro s h
+      obtain ⟨hg, h1, h2, _⟩ := lStep_good pooled s op h
+      obtain ⟨hg', hob⟩ := ih _ hg
+      refine ⟨by simpa [lRun] using hg', ?_⟩
+      intro ob hmem
+      simp only [lRun, List.mem_cons] at hmem
+      rcases hmem with rfl | hmem
+      · exact ⟨h1, h2⟩
+      · exact hob ob hmem
+  have h0 : LGood lInit := by simp [LGood, lInit]
+  obtain ⟨hg, hob⟩ := key ops lInit h0
+  exact ⟨hob, fun hst => (lStep_good pooled _ .arrive hg).2.2.2 rfl hst⟩
+
+example : (lRun true true lInit [.start, .arrive, .shutdown, .start, .arrive, .arrive, .shutdown]).2 =
+    [.ok, .served, .ok, .ok, .served, .served, .ok] := by decide
+
+/-- **restart_counterexample.** (Finding `restart-listener-down`.)  Before the fix a server
+with a worker pool that was started again accepted the `Start`, lost its listener to the first
+arrival without answering it (every later one is refused: the socket is closed), and its next
+`Shutdown` waited until the deadline.  Servers without a pool were never affected. -/
+theorem restart_counterexample :
+    (lRun false true lInit [.start, .arrive, .shutdown, .start, .arrive, .arrive, .shutdown]).2 =
+      [.ok, .served, .ok, .ok, .unanswered, .refused, .hung] ∧
+    (lRun false false lInit [.start, .arrive, .shutdown, .start, .arrive, .arrive, .shutdown]).2 =
+      [.ok, .served, .ok, .ok, .served, .served, .ok] := by decide
+
 #print axioms accept_table
 #print axioms one_response
 #print axioms exactly_one
@@ -892,6 +1040,12 @@ example : (serveDNSCryptE2E .dnscryptTCP (some sampleResponse) .silent).status =
 #print axioms doh_zoned_client_counterexample
 #print axioms doh_get_post_equiv
 #print axioms dnscrypt_e2e_table
+#print axioms handler_panic_contained
+#print axioms panic_isolated
+#print axioms dnscrypt_panic_counterexample
+#print axioms lStep_good
+#print axioms restart_serves
+#print axioms restart_counterexample
 
 end Agd.Serve
 #print axioms Agd.Tie.TrC01.translation_complete
